@@ -233,6 +233,7 @@ fn simpler_op(op: &SOp) -> Vec<SOp> {
     with(&|x| x.nested = None);
     with(&|x| x.io_seed = 0);
     with(&|x| x.from_model = false);
+    with(&|x| x.mode = 0);
     with(&|x| {
         if let Some((_, f)) = x.ser_fault {
             x.ser_fault = Some((0, f))
